@@ -219,13 +219,18 @@ def norm_record(item):
             "obs": obs}
 
 
-def _feats(shape, spec, prev=None):
+def _feats(shape, spec):
     f = []
     if any(c["k"] == "auto" for c in spec):
         f.append("auto")
     if any(s == 0 for s in shape):
         f.append("empty-dim")
     return "+".join(f) or "explicit"
+
+
+def _zero_chunk(chunk_lists):
+    """a zero-width block on an axis that is not empty"""
+    return any(0 in ax and sum(ax) > 0 for ax in chunk_lists)
 
 
 def classify(rec, clause):
@@ -235,21 +240,29 @@ def classify(rec, clause):
     if fam in ("norm", "rechunk"):
         spec = rec["spec"]
         feats = _feats(rec["shape"], spec)
-        if clause == "UnexpectedRaise":
-            return "%s:UnexpectedRaise:%s:%s" % (fam, rec["obs"]["raised"], feats)
-        if clause == "Limit":
-            feats += "+prev" if rec.get("prev") or fam == "rechunk" else ""
         if fam == "rechunk":
-            if any(0 in ax for ax, s in zip(rec["chunks"], rec["shape"]) if s > 0) or \
-                    any(c["k"] == "tuple" and 0 in c["t"] and s > 0 for c, s in zip(spec, rec["shape"])):
-                feats += "+zero-chunk"
-            if rec.get("multistage"):
-                feats += "+multistage"
+            tgt = [c["t"] for c in spec if c["k"] == "tuple"]
+            if _zero_chunk(tgt) and rec.get("multistage_possible", True) and len(rec["shape"]) > 1:
+                feats += "+zero-chunk-target"
+            elif _zero_chunk(rec["chunks"]):
+                feats += "+zero-chunk-source"
+        if clause == "UnexpectedRaise":
+            exc = rec["obs"]["raised"]
+            if "zero-chunk-target" in feats and exc in ("AssertionError", "IndexError"):
+                exc = "planning"          # one root cause (merge_to_number) surfaces as either
+            return "%s:UnexpectedRaise:%s:%s" % (fam, exc, feats)
+        if clause == "Limit" and (rec.get("prev") or fam == "rechunk"):
+            feats += "+prev"
         return "%s:%s:%s" % (fam, clause, feats)
+    feats = "zero-chunk-target" if _zero_chunk(rec["new"]) else ("zero-chunk-source" if _zero_chunk(rec["old"]) else "basic")
+    if any(sum(ax) == 0 for ax in rec["old"]):
+        feats += "+empty-dim"
     if clause == "UnexpectedRaise":
-        return "%s:UnexpectedRaise:%s" % (fam, rec.get("raised", ""))
-    zero = any(0 in ax for ax in rec["old"] + rec["new"] if sum(ax) > 0)
-    return "%s:%s:%s" % (fam, clause, "zero-chunk" if zero else "basic")
+        exc = rec.get("raised", "")
+        if feats.startswith("zero-chunk-target") and exc in ("AssertionError", "IndexError"):
+            exc = "planning"
+        return "%s:UnexpectedRaise:%s:%s" % (fam, exc, feats)
+    return "%s:%s:%s" % (fam, clause, feats)
 
 
 def _clause(texts):
@@ -463,26 +476,49 @@ def rechunk_record(item):
 
 
 # --------------------------------------------------------------------------- the check
-def validate(ctx, recs, label):
-    """Let TLC decide the records; report every rejected one.  Returns the number rejected."""
+_SLIM_DROP = ("variant", "settings", "spell", "case", "multistage", "prev")
+
+
+def _slim(recs):
+    slim = [{k: v for k, v in r.items() if k not in _SLIM_DROP} for r in recs]
+    for r in slim:
+        if "obs" in r:
+            r["obs"] = {k: v for k, v in r["obs"].items() if k not in ("msg", "kind")}
+    return slim
+
+
+def validate(ctx, recs, label, report=True):
+    """Let TLC decide the records; report every rejected one.  Returns {id: clause}."""
     spec, cfg = ctx.model(ctx.spec("array", "RechunkTrace.tla"), {})
-    nrej = 0
-    for lo in range(0, len(recs), 20000):
-        part = recs[lo:lo + 20000]
-        slim = [{k: v for k, v in r.items() if k not in ("variant", "settings", "spell", "case", "multistage", "prev")}
-                for r in part]
-        for r in slim:
-            if "obs" in r:
-                r["obs"] = {k: v for k, v in r["obs"].items() if k not in ("msg", "kind")}
-        rej = ctx.tlc_validate(spec, slim, cfg, timeout=1800, label="trace-validation:" + label)
+    out = {}
+    for lo in range(0, len(recs), 30000):
+        part = recs[lo:lo + 30000]
+        rej = ctx.tlc_validate(spec, _slim(part), cfg, timeout=1800, label="trace-validation:" + label)
         byid = {r["id"]: r for r in part}
         for rid, clauses in sorted(rej.items()):
             r = byid[rid]
             cl = _clause(clauses)
-            nrej += 1
-            ctx.violation(classify(r, cl), "TLC rejects a recorded %s call (%s)" % (r["fam"], clauses[0]),
-                          {"record": r, "clauses": clauses})
-    return nrej
+            out[rid] = cl
+            if report:
+                ctx.violation(classify(r, cl), "TLC rejects a recorded %s call (%s)" % (r["fam"], clauses[0]),
+                              {"record": r, "clauses": clauses})
+    return out
+
+
+def norm_records(ctx, cases, nvar):
+    items = []
+    for i, c in enumerate(cases):
+        for j, v in enumerate(norm_variants(c["c"], ctx.rng, nvar)):
+            items.append(("n%d_%d" % (i, j), c["c"], v))
+    recs = []
+    for r in pmap(norm_record, items, chunk=256):
+        if "skip" in r:
+            ctx.skip(r["skip"])
+            continue
+        recs.append(r)
+        nontrivial = r["obs"]["raised"] == "" and any(c["k"] != "tuple" for c in r["spec"]) and sum(r["shape"]) > 0
+        ctx.count(("norm", r["shape"], r["spec"], r["limit"], r["itemsize"], r["prev"], r["variant"]), nontrivial)
+    return recs
 
 
 def norm_phase(ctx, consts, nvar, cap, label="norm"):
@@ -494,41 +530,20 @@ def norm_phase(ctx, consts, nvar, cap, label="norm"):
     if len(cases) > cap:
         sampled = True
         cases = ctx.rng.sample(cases, cap)
-    items = []
-    for i, c in enumerate(cases):
-        for j, v in enumerate(norm_variants(c["c"], ctx.rng, nvar)):
-            items.append(("n%d_%d" % (i, j), c["c"], v))
-    recs = []
-    for it, r in zip(items, pmap(norm_record, items, chunk=256)):
-        if "skip" in r:
-            ctx.skip(r["skip"])
-            continue
-        recs.append(r)
-        nontrivial = r["obs"]["raised"] == "" and any(c["k"] != "tuple" for c in r["spec"]) and sum(r["shape"]) > 0
-        ctx.count(("norm", r["shape"], r["spec"], r["limit"], r["itemsize"], r["prev"], r["variant"]), nontrivial)
-    # cross-check of the exported expectation with what TLC will demand (explicit axes), on the Python side
+    # sanity of the exported expectation (explicit axes are listed, automatic ones left open)
     for c in cases[:2000]:
         e = c["e"]
         if not e["err"]:
             for d, ax in enumerate(e["explicit"]):
-                k = c["c"]["spec"][d]["k"]
-                if (k == "auto") != (len(ax) == 0):
+                if (c["c"]["spec"][d]["k"] == "auto") != (len(ax) == 0):
                     raise MachineryError("exported expectation malformed for %r" % (c,))
-    validate(ctx, recs, label)
+    recs = norm_records(ctx, cases, nvar)
     if cases:
         ctx.sample({"case": cases[0]["c"], "expected": cases[0]["e"]})
-    return total, sampled
+    return recs, total, sampled
 
 
-def rechunk_phase(ctx, consts, cap, nsettings, label):
-    spec, cfg = ctx.model(ctx.spec("array", "RechunkMC.tla"), consts,
-                          invariants=["RefTiles", "BlocksFromPieces", "TargetCovers", "TrivialPlanOK"])
-    cases, _ = ctx.tlc_cases(spec, cfg, label="design+cases:" + label, timeout=1800)
-    total = len(cases)
-    sampled = False
-    if len(cases) > cap:
-        sampled = True
-        cases = ctx.rng.sample(cases, cap)
+def rechunk_items(ctx, cases, nsettings):
     items = []
     for c in cases:
         nd = len(c["c"]["shape"])
@@ -537,6 +552,12 @@ def rechunk_phase(ctx, consts, cap, nsettings, label):
         else:
             sts = [SETTINGS[1]] + ctx.rng.sample([SETTINGS[0], SETTINGS[2], SETTINGS[3]], max(0, nsettings - 1))
         items.append((c["c"], c["e"], sts, ctx.rng.choice(["tuple", "tuple", "list", "dict", "dictneg"])))
+    return items
+
+
+def rechunk_replay(ctx, items):
+    """Replay enumerated (source, target) pairs; judge against the exported expectation; return the inner/direct
+    plan and old_to_new records (decided by TLC later) and the number of multi-stage plans seen."""
     recs, multi = [], 0
     for (case, exp, _s, spell), r in zip(items, pmap(_rechunk_work, items)):
         if "guard" in r:
@@ -550,7 +571,7 @@ def rechunk_phase(ctx, consts, cap, nsettings, label):
             ctx.count(("rechunk", case, st, spell), len(exp["cells"]) > 0 and case["chunks"] != case["target"])
             if cl:
                 rec = {"fam": "rechunk", "shape": case["shape"], "chunks": case["chunks"], "spec": explicit_spec(case["target"]),
-                       "obs": detail["obs"], "multistage": ms}
+                       "obs": detail["obs"]}
                 ctx.violation(classify(rec, cl), "%s: rechunk disagrees with the reference" % cl,
                               {"case": case, "expected": exp, "settings": st, "spell": spell, "observed": detail})
         for j, rr in enumerate(r["records"]):
@@ -558,17 +579,42 @@ def rechunk_phase(ctx, consts, cap, nsettings, label):
             recs.append(rr)
     for r in recs:
         ctx.count((r["fam"], r["old"], r["new"], r.get("settings")), r["old"] != r["new"] and sum(map(sum, r["old"])) > 0)
-    multi_direct = sum(1 for r in recs if r["fam"] == "plan" and len(r["steps"]) > 1)
-    validate(ctx, recs, label)
+    return recs, multi
+
+
+def rechunk_phase(ctx, consts, caps, nsettings, label="rechunk"):
+    spec, cfg = ctx.model(ctx.spec("array", "RechunkMC.tla"), consts,
+                          invariants=["RefTiles", "BlocksFromPieces", "TargetCovers", "TrivialPlanOK"])
+    cases, _ = ctx.tlc_cases(spec, cfg, label="design+cases:" + label, timeout=1800)
+    total = len(cases)
+    groups = {"1d": [], "nd": [], "zero": []}
+    for c in cases:
+        cc = c["c"]
+        if len(cc["shape"]) == 1:
+            groups["1d"].append(c)
+        elif _zero_chunk(cc["chunks"]) or _zero_chunk(cc["target"]) or 0 in cc["shape"]:
+            groups["zero"].append(c)
+        else:
+            groups["nd"].append(c)
+    sampled = False
+    chosen = []
+    for g in ("1d", "nd", "zero"):
+        cs = groups[g]
+        if len(cs) > caps[g]:
+            sampled = True
+            cs = ctx.rng.sample(cs, caps[g])
+        chosen += cs
+    items = rechunk_items(ctx, chosen, nsettings)
+    recs, multi = rechunk_replay(ctx, items)
     if items:
         ctx.sample({"case": items[0][0], "expected": {"chunks": items[0][1]["chunks"], "cells": "identity"}})
-    return total, sampled, multi, multi_direct
+    return recs, total, sampled, multi
 
 
 def random_phase(ctx, n):
     items = random_rechunks(ctx.rng, n)
     recs, inner_recs, multi = [], [], 0
-    for it, r in zip(items, pmap(rechunk_record, items)):
+    for r in pmap(rechunk_record, items):
         if "skip" in r:
             ctx.skip(r["skip"])
             continue
@@ -580,41 +626,34 @@ def random_phase(ctx, n):
         for j, rr in enumerate(r["inner"]):
             rr["id"] = "%s_i%d" % (rec["id"], j)
             inner_recs.append(rr)
-    validate(ctx, recs + inner_recs, "random-rechunk")
     if recs:
         ctx.sample({"recorded_call": {k: recs[0][k] for k in ("shape", "chunks", "spec", "settings", "spell")}})
-    return multi
+    return recs + inner_recs, multi
 
 
 def run(ctx):
-    q = ctx.quick
     ext = [0, 1, 5, 7, 12]
-    shapes12 = [[a] for a in ext] + [[a, b] for a in ext for b in ext]
-    shapes3 = ctx.pick([[5, 1, 7], [0, 5, 12]],
+    shapes = [[a] for a in ext] + [[a, b] for a in ext for b in ext]
+    shapes += ctx.pick([[5, 1, 7], [0, 5, 12]],
                        [[5, 1, 7], [0, 5, 12], [7, 7, 7], [12, 5, 1], [1, 0, 5], [12, 12, 12], [5, 7, 0], [1, 1, 1]])
-    limits = [1, 2, 4, 8, 16, 64]
-    total = 0
-    t1, s1 = norm_phase(ctx, {"Fam": "norm", "N": -1, "Z": 0, "Shapes": TLA(_tla_shapes(shapes12)),
-                              "Limits": set(ctx.pick([1, 4, 16, 64], limits)), "Itemsizes": set(ctx.pick([1, 8], [1, 4, 8]))},
-                        ctx.pick(1, 2), ctx.pick(8000, 10 ** 9), "norm-1d2d")
-    t2, s2 = norm_phase(ctx, {"Fam": "norm", "N": -1, "Z": 0, "Shapes": TLA(_tla_shapes(shapes3)),
-                              "Limits": set(ctx.pick([2, 16], limits)), "Itemsizes": set(ctx.pick([1, 8], [1, 4, 8]))},
-                        1, ctx.pick(4000, 150000), "norm-3d")
-    total += t1 + t2
-    t3, s3, m3, md3 = rechunk_phase(ctx, {"Fam": "rechunk", "N": ctx.pick(6, 7), "Z": 3, "Shapes": TLA("{}"), "Limits": {1},
-                                          "Itemsizes": {1}}, 10 ** 9, 2, "rechunk-1d")
+    nrecs, t1, s1 = norm_phase(ctx, {"Fam": "norm", "N": -1, "Z": 0, "Shapes": TLA(_tla_shapes(shapes)), "ZShapes": TLA("{}"),
+                                     "Limits": set(ctx.pick([1, 4, 16, 64], [1, 2, 4, 8, 16, 64])),
+                                     "Itemsizes": set(ctx.pick([1, 8], [1, 4, 8]))},
+                               ctx.pick(1, 2), ctx.pick(12000, 250000))
     nd_shapes = ctx.pick("{<<2, 3>>, <<4, 4>>, <<2, 3, 2>>}", "{<<2, 3>>, <<4, 3>>, <<4, 4>>, <<5, 4>>, <<2, 3, 2>>, <<3, 3, 3>>}")
-    t4, s4, m4, md4 = rechunk_phase(ctx, {"Fam": "rechunk", "N": -1, "Z": 0, "Shapes": TLA(nd_shapes), "Limits": {1},
-                                          "Itemsizes": {1}}, ctx.pick(2500, 12000), ctx.pick(2, 3), "rechunk-nd")
-    t5, s5, m5, md5 = rechunk_phase(ctx, {"Fam": "rechunk", "N": -1, "Z": 2, "Shapes": TLA("{<<2, 2>>, <<1, 3>>}"), "Limits": {1},
-                                          "Itemsizes": {1}}, ctx.pick(800, 4000), 2, "rechunk-nd-zero")
-    total += t3 + t4 + t5
-    m6 = random_phase(ctx, ctx.pick(1200, 15000))
-    if m4 + md4 == 0 or m6 == 0:
-        raise MachineryError("vacuous: no multi-stage rechunk plan was exercised (%d, %d, %d)" % (m4, md4, m6))
-    ctx.exhaustive = not (s1 or s2 or s3 or s4 or s5)
-    ctx.extra["cases_enumerated_by_tlc"] = total
-    ctx.extra["multi_stage_plans"] = {"replayed_rechunks": m3 + m4 + m5, "direct_plan_calls": md3 + md4 + md5, "random_rechunks": m6}
+    rrecs, t2, s2, m2 = rechunk_phase(ctx, {"Fam": "rechunk", "N": ctx.pick(6, 7), "Z": 3, "Shapes": TLA(nd_shapes),
+                                            "ZShapes": TLA(ctx.pick("{<<2, 2>>, <<1, 3>>, <<0, 3>>}",
+                                                                    "{<<2, 2>>, <<1, 3>>, <<0, 3>>, <<3, 2>>, <<2, 0>>}")),
+                                            "Limits": {1}, "Itemsizes": {1}},
+                                      {"1d": 10 ** 9, "nd": ctx.pick(2000, 14000), "zero": ctx.pick(800, 6000)}, ctx.pick(2, 3))
+    qrecs, m3 = random_phase(ctx, ctx.pick(1000, 15000))
+    validate(ctx, nrecs + rrecs + qrecs, "all-recorded-calls")
+    md = sum(1 for r in rrecs if r["fam"] == "plan" and len(r["steps"]) > 1)
+    if m2 + md == 0 or m3 == 0:
+        raise MachineryError("vacuous: no multi-stage rechunk plan was exercised (%d, %d, %d)" % (m2, md, m3))
+    ctx.exhaustive = not (s1 or s2)
+    ctx.extra["cases_enumerated_by_tlc"] = t1 + t2
+    ctx.extra["multi_stage_plans"] = {"replayed_rechunks": m2, "direct_plan_calls": md, "random_rechunks": m3}
     ctx.rule = ("cases = TLC-enumerated normalize_chunks grid points x spellings, TLC-enumerated (source, target) chunking pairs x "
                 "rechunk settings, direct old_to_new / plan_rechunk calls, recorded random rechunks; non-trivial = no expected "
                 "error, a non-empty array, a spec with at least one non-tuple axis (norm) / source != target (rechunk)")
@@ -661,8 +700,4 @@ def replay(ctx, obj):
 
 def _validate_quiet(ctx, recs):
     spec, cfg = ctx.model(ctx.spec("array", "RechunkTrace.tla"), {})
-    slim = [{k: v for k, v in r.items() if k not in ("variant", "settings", "spell", "case", "multistage", "prev")} for r in recs]
-    for r in slim:
-        if "obs" in r:
-            r["obs"] = {k: v for k, v in r["obs"].items() if k not in ("msg", "kind")}
-    return ctx.tlc_validate(spec, slim, cfg)
+    return ctx.tlc_validate(spec, _slim(recs), cfg)
